@@ -187,11 +187,12 @@ theorem chk_sound (ok : PyTy → Bool) (P : PyTy → Prop) (hokP : ∀ B, ok B =
         obtain ⟨hb, hm⟩ := hc
         cases T0 <;> try (simp at hm; done)
         case union ts =>
-          have hmem := any_eqb_sound hm
+          simp only [Bool.and_eq_true] at hm
+          have hmem := any_eqb_sound hm.1
           refine ⟨n + 1, ?_⟩
           unfold rep
           simp only [Bool.and_eq_true, Bool.not_eq_true', Bool.or_eq_true]
-          refine ⟨hb, Or.inr ?_⟩
+          refine ⟨hb, Or.inr ⟨hm.2, ?_⟩⟩
           simp only [rawEnum, List.any_eq_true]
           refine ⟨.enum e, hmem, ?_⟩
           -- the reading is the member whose value is `j`
